@@ -430,7 +430,7 @@ def run(ctx):
     ctx.drop('type annotations', 'docstrings')
     ctx.trust('paper lemma L-SOUND (DESIGN.md §4): trunk exactness + forward exactness of every rule + freshness + closure soundness + the _apply contract + "valid iff completed and no open branch" imply that a valid verdict excludes a countermodel, for every option value and iteration order (no obligation mentions either)',
               'C06 (freshness) and C17 (verdict) obligations are discharged by their own checks and are premises here',
-              'Branch.__iadd__ is extend (MutableSequence mixin) -> append', 'spec/semantics.py (the oracle)',
+              'Branch.extend is the MutableSequence mixin over append (Branch.__iadd__ itself is interpreted under build_trunk)', 'spec/semantics.py (the oracle)',
               'sentence constructors as free datatype (C15); tools.substitute replaces every occurrence (C15)')
     ctx.assume('quantifier/modal forward exactness uses the value-set abstraction (see C04)', 'CPython semantics of the interpreted subset as encoded by pyvc/interp.py')
     ctx.explanation = ('Hypotheses of L-SOUND as obligations on the real code, per logic: System.build_trunk (interpreted; trunk nodes and their satisfaction = countermodel), '
